@@ -98,7 +98,8 @@ def run_tlc(module, cfg, timeout=600, workers=1, env=None, extra=(), heap="4g", 
                 shutil.copyfile(os.path.join(SPEC, f), sc.path(f))
         open(sc.path("run.cfg"), "w").write(cfg)
         gc = ["-XX:+UseParallelGC", "-XX:ParallelGCThreads=2", "-XX:CICompilerCount=2", "-XX:TieredStopAtLevel=1"] if light else ["-XX:+UseParallelGC"]
-        cmd = ["java"] + gc + ["-Xmx" + heap, "-Xss64m", "-cp", CP, "tlc2.TLC", "-metadir", sc.path("md"),
+        os.makedirs(sc.path("jtmp"), exist_ok=True)
+        cmd = ["java"] + gc + ["-Djava.io.tmpdir=" + sc.path("jtmp"), "-Xmx" + heap, "-Xss64m", "-cp", CP, "tlc2.TLC", "-metadir", sc.path("md"),
                "-workers", str(workers), "-config", "run.cfg"] + list(extra) + [module]
         e = dict(os.environ)
         e.update(env or {})
@@ -197,6 +198,14 @@ def write_evidence(prop, tier, seed, level, coverage, assumptions, wall, violati
     with open(os.path.join(VERIF, "evidence", prop + ".json"), "w") as f:
         json.dump(ev, f, indent=1, sort_keys=False)
         f.write("\n")
+
+
+def clear_replays(prop):
+    d = os.path.join(VERIF, "replays")
+    if os.path.isdir(d):
+        for f in os.listdir(d):
+            if f.startswith(prop + "_"):
+                os.remove(os.path.join(d, f))
 
 
 def write_replay(prop, name, obj):
